@@ -65,6 +65,13 @@ fn c13_call_contract_p33() {
     c13_call_contract(33)
 }
 
+// HARNESS props=C13 tier=thorough profile=gw_c13b shape="payload 64 bytes"
+#[kani::proof]
+#[kani::unwind(132)]
+fn c13_call_contract_p64() {
+    c13_call_contract(64)
+}
+
 // ------------------------------------------------------------------ C02: consumption and queries
 fn any_message(env: &Env) -> Message {
     Message {
